@@ -86,10 +86,22 @@ func (e *Exec) step(fr *Frame, st *State, in ssa.Instruction, b *ssa.BasicBlock,
 		fr.vals[x] = e.alloc(st, "chan")
 	case *ssa.MakeClosure:
 		// captured variables may be written whenever the closure runs
-		for _, bnd := range x.Bindings {
-			if r := allocRoot(bnd); r != nil {
-				if key, ok := fr.localKey(r); ok {
-					fr.escaped(key)
+		onlyDeferred := true
+		if refs := x.Referrers(); refs != nil {
+			for _, r := range *refs {
+				switch r.(type) {
+				case *ssa.Defer, *ssa.DebugRef:
+				default:
+					onlyDeferred = false
+				}
+			}
+		}
+		if !onlyDeferred {
+			for _, bnd := range x.Bindings {
+				if r := allocRoot(bnd); r != nil {
+					if key, ok := fr.localKey(r); ok {
+						fr.escaped(key)
+					}
 				}
 			}
 		}
@@ -108,6 +120,7 @@ func (e *Exec) step(fr *Frame, st *State, in ssa.Instruction, b *ssa.BasicBlock,
 		e.newEpoch(st)
 	case *ssa.Defer:
 		fr.defers = append(fr.defers, x)
+		st.defers = append(st.defers, deferEntry{d: x, guard: st.pc})
 		for _, a := range x.Call.Args {
 			if r := allocRoot(a); r != nil {
 				if key, ok := fr.localKey(r); ok {
@@ -172,7 +185,7 @@ func (e *Exec) flow(fr *Frame, cur *State, from, to *ssa.BasicBlock, st *State, 
 
 func (e *Exec) doAlloc(fr *Frame, st *State, x *ssa.Alloc) Value {
 	et := x.Type().(*types.Pointer).Elem()
-	if !x.Heap {
+	if !x.Heap || capturedOnly(x) {
 		e.localN++
 		key := fmt.Sprintf("L%d", e.localN)
 		fr.locals[x] = key
@@ -960,4 +973,31 @@ func (e *Exec) exactShl(fr *Frame, x *ssa.BinOp, at *Term, n int64) {
 		return
 	}
 	e.setExact(fr, x, App(SInt, "*", e.exOf(fr, x.X, at), BigLit(pow2(int(n)))))
+}
+
+// capturedOnly: a heap cell that exists only because closures of this
+// function capture the variable: it is accessed by loads and stores of this
+// function and by its closures, nothing else can reach it.
+func capturedOnly(x *ssa.Alloc) bool {
+	et := x.Type().(*types.Pointer).Elem()
+	switch et.Underlying().(type) {
+	case *types.Struct, *types.Array:
+		return false
+	}
+	refs := x.Referrers()
+	if refs == nil {
+		return false
+	}
+	for _, r := range *refs {
+		switch y := r.(type) {
+		case *ssa.Store:
+			if y.Addr != x {
+				return false
+			}
+		case *ssa.UnOp, *ssa.DebugRef, *ssa.MakeClosure:
+		default:
+			return false
+		}
+	}
+	return true
 }
